@@ -52,7 +52,7 @@ def run_case(case):
     res = Result()
     rng = rng_for(case)
     d = scratch()
-    kind = "NP2.1" if case["_i"] % 2 == 0 else "NP2.4"
+    kind = "NP2.1" if case.get("_orig_i", case["_i"]) % 2 == 0 else "NP2.4"
     gain = np2.GAIN_PAIRS[int(rng.integers(0, 4))]
     ns = int(rng.integers(2500, 9000))
     if ns % 12 == 0:
